@@ -164,6 +164,8 @@ def _counter_increment(F, f, b, t, defs):
 
 
 def run(F, res, tier):
+    from rules import c14 as _c14u
+    _c14u.text_positions_are_counted_in_bytes(F, res, rule="M20", crates=('glas',))   # engine U: String::drain / slicing at a non-byte count panics on the unguarded main loop
     reviewed = R.load_reviewed().get("C15", {})
     from lib.inventory import Inventory
     INV = Inventory(F, reviewed, "M1/", discharged=lambda f_, b_, k_, dt_, df_: discharge(F, f_, b_, k_, dt_, df_))
